@@ -644,6 +644,39 @@ theorem kind_exitBreakable (c : Compl) : kind c.exitBreakable = exitK (kind c) :
   | brk lb v => cases lb <;> rfl
   | _ => rfl
 
+/-- leaving a switch statement: an unlabelled break jumps to its end, everything else passes through -/
+theorem wrapSwitch {C : Code} {ctx : List BI} {σ : VM} {e : Nat} {I : List Nat} {rf : Bool}
+    {lg : List Ev} {k : K}
+    (hsim : SimK C (BI.switch_ e :: ctx) σ e I rf lg k) : SimK C ctx σ e I rf lg (exitK k) := by
+  cases k with
+  | normal => exact hsim
+  | brk lb =>
+    obtain ⟨τ, h1, h2, h3, ex, t, hf, hcd⟩ := hsim
+    cases lb with
+    | none =>
+      simp only [findBrk, Option.isNone_none, Bool.and_self, if_true, Option.some.injEq, Prod.mk.injEq] at hf
+      obtain ⟨hex, ht⟩ := hf
+      subst hex; subst ht
+      have hi : C[τ.pc]? = some (Instr.jump (CS.rel e (τ.pc + 0))) := codeAt_head hcd
+      let τ2 := VM.step τ (.jump (CS.rel e (τ.pc + 0)))
+      have hc2 : Common τ τ2 [] I rf :=
+        ⟨by simp [τ2], by simp [τ2], by simpa [τ2] using h2.iters, by simpa [τ2] using h2.halted,
+         fun _ _ => by simp [τ2], fun _ => by simp [τ2]⟩
+      have hp2 : τ2.pc = e := by
+        have := jmp_rel τ.pc e
+        simpa [τ2] using this
+      exact ⟨τ2, h1.trans (Reach.one h2.halted hi), by simpa using h2.trans hc2, hp2, by simpa [τ2] using h3⟩
+    | some l' =>
+      have hf' : findBrk (some l') true ctx = some (ex, t) := by simpa [findBrk] using hf
+      exact ⟨τ, h1, h2, h3, ex, t, hf', hcd⟩
+  | cont lb =>
+    obtain ⟨τ, h1, h2, h3, ex, t, hf, hcd⟩ := hsim
+    have hf' : findBrk lb false ctx = some (ex, t) := by simpa [findBrk] using hf
+    exact ⟨τ, h1, h2, h3, ex, t, hf', hcd⟩
+  | ret v => exact hsim
+  | thr v => exact hsim
+  | fatal => exact hsim
+
 theorem loopFrom_succ (run : Nat → Res) (ls : List Label) (r i : Nat) (V : Val) :
     loopFrom run ls (r + 1) i V =
       if (run i).1.loopContinues ls = true then
@@ -1007,6 +1040,77 @@ theorem NR_seqRes {ra : Res} {rb : Unit → Res} (ha : NR ra) (hb : NR (rb ())) 
     | some x => show kind ((rb ()).1.updateEmpty x) ≠ K.ret v; rw [kind_updateEmpty]; exact hb v
   | _ => exact ha
 
+theorem kind_seqRes (ra : Res) (rb : Unit → Res) :
+    kind (seqRes ra rb).1 = (if kind ra.1 = K.normal then kind (rb ()).1 else kind ra.1) ∧
+    (seqRes ra rb).2 = (if kind ra.1 = K.normal then ra.2 ++ (rb ()).2 else ra.2) := by
+  obtain ⟨ca, la⟩ := ra
+  cases ca with
+  | normal va =>
+    have hkn : kind (Compl.normal va, la).1 = K.normal := rfl
+    rw [if_pos hkn, if_pos hkn]
+    cases hrb : rb () with
+    | mk cb lb =>
+      cases va with
+      | none => simp [seqRes, hrb]
+      | some x => simp [seqRes, hrb, kind_updateEmpty]
+  | _ => simp [seqRes, kind]
+
+theorem kind_swTail (V : Val) (r1 : Res) : kind (swTail V r1).1 = exitK (kind r1.1) ∧ (swTail V r1).2 = r1.2 := by
+  obtain ⟨c, l⟩ := r1
+  cases c with
+  | normal v => exact ⟨rfl, rfl⟩
+  | brk lb v => refine ⟨?_, rfl⟩; show kind ((Compl.brk lb v).updateEmpty V).exitBreakable = _; rw [kind_exitBreakable, kind_updateEmpty]
+  | cont lb v => refine ⟨?_, rfl⟩; show kind ((Compl.cont lb v).updateEmpty V).exitBreakable = _; rw [kind_exitBreakable, kind_updateEmpty]
+  | ret v => exact ⟨rfl, rfl⟩
+  | thr v => exact ⟨rfl, rfl⟩
+  | fatal => exact ⟨rfl, rfl⟩
+
+/-- the two-clause switch on kinds: clause 0 falls through into clause 1 like a statement list, and an unlabelled
+break is consumed -/
+theorem kind_swRes (sel : Nat) (r0 r1 : Unit → Res) :
+    kind (swRes sel r0 r1).1 = (if sel = 0 then exitK (kind (seqRes (r0 ()) r1).1) else if sel = 1 then exitK (kind (r1 ()).1) else K.normal) ∧
+    (swRes sel r0 r1).2 = (if sel = 0 then (seqRes (r0 ()) r1).2 else if sel = 1 then (r1 ()).2 else []) := by
+  by_cases h0 : sel = 0
+  · subst h0
+    rw [if_pos rfl, if_pos rfl]
+    obtain ⟨hk, hl⟩ := kind_seqRes (r0 ()) r1
+    by_cases hn : kind (r0 ()).1 = K.normal
+    · obtain ⟨v, hv⟩ : ∃ v, (r0 ()).1 = Compl.normal v := by
+        cases hc : (r0 ()).1 with
+        | normal v => exact ⟨v, rfl⟩
+        | _ => rw [hc] at hn; simp [kind] at hn
+      have e : swRes 0 r0 r1 = ((swTail (v.getD 0) (r1 ())).1, (r0 ()).2 ++ (swTail (v.getD 0) (r1 ())).2) := by
+        simp [swRes, hv]
+      rw [e, hk, hl, if_pos hn, if_pos hn]
+      exact ⟨(kind_swTail _ _).1, by rw [(kind_swTail _ _).2]⟩
+    · have e : swRes 0 r0 r1 = (((r0 ()).1.updateEmpty 0).exitBreakable, (r0 ()).2) := by
+        cases hc : (r0 ()).1 with
+        | normal v => rw [hc] at hn; exact absurd rfl hn
+        | _ => simp [swRes, hc]
+      rw [e, hk, hl, if_neg hn, if_neg hn]
+      exact ⟨by show kind _ = _; rw [kind_exitBreakable, kind_updateEmpty], rfl⟩
+  · by_cases h1 : sel = 1
+    · subst h1
+      simp only [swRes, h0, if_false, if_true]
+      exact kind_swTail 0 (r1 ())
+    · simp [swRes, h0, h1, kind]
+
+theorem NR_exitK {k : K} (h : ∀ v, k ≠ K.ret v) : ∀ v, exitK k ≠ K.ret v := by
+  intro v
+  cases k with
+  | brk lb => cases lb <;> simp [exitK]
+  | ret w => simpa [exitK] using h v
+  | _ => simp [exitK]
+
+theorem NR_swRes (sel : Nat) {r0 r1 : Unit → Res} (h0 : NR (r0 ())) (h1 : NR (r1 ())) : NR (swRes sel r0 r1) := by
+  intro v
+  rw [(kind_swRes sel r0 r1).1]
+  by_cases hs0 : sel = 0
+  · simp only [hs0, if_true]; exact NR_exitK (NR_seqRes h0 h1) v
+  · by_cases hs1 : sel = 1
+    · simp only [hs0, hs1, if_false, if_true]; exact NR_exitK h1 v
+    · simp [hs0, hs1]
+
 theorem NR_catchPart (i : Nat) {rb : Res} (hasC : Bool) {rc : Unit → Res} (hb : NR rb) (hc : hasC = true → NR (rc ())) :
     NR (catchPart i rb hasC rc) := by
   obtain ⟨cb, lb⟩ := rb
@@ -1107,7 +1211,12 @@ theorem retFree_no_ret (s : Stmt) : stage1 s = true → retFree s = true → ∀
       | some l' => by_cases h : l' = l <;> simp [lblK, h]
     | ret w => rw [hk] at this; simp [lblK]; intro hh; exact this (by rw [hh])
     | _ => simp [lblK]
-  | sw u k a b _ _ => intro hs; simp [stage1] at hs
+  | sw u k a b iha ihb =>
+    intro hs hr env ls
+    simp only [stage1, Bool.and_eq_true] at hs
+    simp only [retFree, Bool.and_eq_true] at hr
+    simp only [exec]
+    exact NR_swRes _ (iha hs.1 hr.1 env []) (ihb hs.2 hr.2 env [])
   | withS s ih =>
     intro hs hr env ls v
     have := ih hs hr env [] v
@@ -1336,6 +1445,39 @@ theorem common_step {σ : VM} {i : Instr} {l : List Ev} {I : List Nat} {rf : Boo
     (h3 : (VM.step σ i).iters = []) (h4 : (VM.step σ i).halted = none)
     (h5 : ∀ x, x ∉ I → (VM.step σ i).cnt x = σ.cnt x) (h6 : rf = true → (VM.step σ i).result = σ.result) :
     Common σ (VM.step σ i) l I rf := ⟨h1, h2, h3, h4, h5, h6⟩
+
+/-! ### switch: the selector dispatch -/
+
+theorem Reach.stepTo {C : Code} {σ τ ρ : VM} {i : Instr} (hh : σ.halted = none) (hi : C[σ.pc]? = some i)
+    (he : VM.step σ i = τ) (hr : Reach C τ ρ) : Reach C σ ρ := by
+  subst he; exact Reach.step hh hi hr
+
+/-- one clause test `dup; loadVal m; strictEq; jneP 3; pop; jump off` with the selector on top of the stack -/
+theorem swTest {C : Code} {σ : VM} {p sel m : Nat} {st : List Val} {off : Int}
+    (hC : CodeAt C p [Instr.dup, Instr.loadVal m, Instr.strictEq, Instr.jneP 3, Instr.pop, Instr.jump off])
+    (hpc : σ.pc = p) (hh : σ.halted = none) (hst : σ.stack = sel :: st) :
+    Reach C σ (if sel = m then { σ with pc := ((p + 5 : Nat) + off).toNat, stack := st } else { σ with pc := p + 6 }) := by
+  have i0 := codeAt_head hC
+  have i1 := codeAt_head (codeAt_tail hC)
+  have i2 := codeAt_head (codeAt_tail (codeAt_tail hC))
+  have i3 := codeAt_head (codeAt_tail (codeAt_tail (codeAt_tail hC)))
+  have i4 := codeAt_head (codeAt_tail (codeAt_tail (codeAt_tail (codeAt_tail hC))))
+  have i5 := codeAt_head (codeAt_tail (codeAt_tail (codeAt_tail (codeAt_tail (codeAt_tail hC)))))
+  refine Reach.stepTo (τ := { σ with pc := p + 1, stack := sel :: sel :: st }) hh (by rw [hpc]; exact i0)
+    (by simp [hst, hpc]) ?_
+  refine Reach.stepTo (τ := { σ with pc := p + 1 + 1, stack := m :: sel :: sel :: st }) hh i1 (by simp) ?_
+  refine Reach.stepTo (τ := { σ with pc := p + 1 + 1 + 1, stack := VM.boolV (sel == m) :: sel :: st }) hh i2 (by simp) ?_
+  by_cases hs : sel = m
+  · simp only [hs, if_true]
+    refine Reach.stepTo (τ := { σ with pc := p + 1 + 1 + 1 + 1, stack := m :: st }) hh i3 (by simp [hs]) ?_
+    refine Reach.stepTo (τ := { σ with pc := p + 1 + 1 + 1 + 1 + 1, stack := st }) hh i4 (by simp) ?_
+    refine Reach.stepTo (τ := { σ with pc := ((p + 5 : Nat) + off).toNat, stack := st }) hh i5 (by simp; omega) ?_
+    exact Reach.refl _
+  · simp only [hs, if_false]
+    have hb : (sel == m) = false := by simpa using hs
+    refine Reach.stepTo (τ := { σ with pc := p + 6 }) hh i3 ?_ (Reach.refl _)
+    simp [hb, hst]
+    omega
 
 /-- THE SIMULATION THEOREM (statement level). -/
 theorem sim (s : Stmt) : ∀ (cur : Nat) (lab : Option Label) (ls : List Label) (ctx : List BI) (pc : Nat)
@@ -2169,9 +2311,131 @@ theorem sim (s : Stmt) : ∀ (cur : Nat) (lab : Option Label) (ls : List Label) 
       unfold Sim
       rw [hk, hlg, hx]
       exact W
-  | sw u k a b _ _ =>
-    intro cur lab ls ctx pc C σ env hst
-    simp [stage1] at hst
+  | sw u k a b iha ihb =>
+    intro cur lab ls ctx pc C σ env hst hls hlab hcur hnop hC hpc hh hit hcnt
+    have hl : lab = none := hlab rfl
+    subst hl
+    rw [adj_none]
+    simp only [stage1, Bool.and_eq_true] at hst
+    simp only [ids, List.mem_append, not_or] at hcur
+    simp only [gen] at hnop hC
+    rw [codeAt_append, codeAt_append] at hC
+    obtain ⟨⟨hC0, hCa⟩, hCb⟩ := hC
+    simp only [List.length_append, List.length_cons, List.length_nil, gen_length, List.map_cons, BI.shape] at hCa hCb
+    generalize hla : glen a none (BS.switch_ :: ctx.map BI.shape) = la at *
+    generalize hlb : glen b none (BS.switch_ :: ctx.map BI.shape) = lb at *
+    have hna : Instr.nop ∉ gen a cur none (BI.switch_ (pc + 15 + la + lb) :: ctx) (pc + 15) :=
+      fun h => hnop (List.mem_append_left _ (List.mem_append_right _ h))
+    have hnb : Instr.nop ∉ gen b cur none (BI.switch_ (pc + 15 + la + lb) :: ctx) (pc + 15 + la) :=
+      fun h => hnop (List.mem_append_right _ h)
+    have hCa' : CodeAt C (pc + 15) (gen a cur none (BI.switch_ (pc + 15 + la + lb) :: ctx) (pc + 15)) := by
+      simpa [Nat.add_assoc] using hCa
+    have hCb' : CodeAt C (pc + 15 + la) (gen b cur none (BI.switch_ (pc + 15 + la + lb) :: ctx) (pc + 15 + la)) := by
+      simpa [Nat.add_assoc] using hCb
+    have hIa : ∀ x, x ∈ ids a → x ∈ ids (Stmt.sw u k a b) := fun x hx => by simp [ids, hx]
+    have hIb : ∀ x, x ∈ ids b → x ∈ ids (Stmt.sw u k a b) := fun x hx => by simp [ids, hx]
+    have hra : retFree (Stmt.sw u k a b) = true → retFree a = true := fun h => by
+      simp [retFree] at h; exact h.1
+    have hrb : retFree (Stmt.sw u k a b) = true → retFree b = true := fun h => by
+      simp [retFree] at h; exact h.2
+    have he : pc + glen (Stmt.sw u k a b) none (ctx.map BI.shape) = pc + 15 + la + lb := by
+      simp [glen, hla, hlb]; omega
+    -- clause bodies from their entry points
+    have runB : ∀ τ : VM, τ.pc = pc + 15 + la → τ.halted = none → τ.iters = [] → τ.cnt cur = some env →
+        SimK C (BI.switch_ (pc + 15 + la + lb) :: ctx) τ (pc + 15 + la + lb) (ids (Stmt.sw u k a b))
+          (retFree (Stmt.sw u k a b)) (exec env [] b).2 (kind (exec env [] b).1) := by
+      intro τ hp hhh hii hcc
+      have B := ihb cur none [] (BI.switch_ (pc + 15 + la + lb) :: ctx) (pc + 15 + la) C τ env hst.2 rfl (fun _ => rfl)
+        hcur.2 hnb hCb' hp hhh hii hcc
+      rw [adj_none] at B
+      simp only [List.map_cons, BI.shape, hlb] at B
+      exact SimK.mono B hIb hrb
+    have runA : ∀ τ : VM, τ.pc = pc + 15 → τ.halted = none → τ.iters = [] → τ.cnt cur = some env →
+        SimK C (BI.switch_ (pc + 15 + la + lb) :: ctx) τ (pc + 15 + la + lb) (ids (Stmt.sw u k a b))
+          (retFree (Stmt.sw u k a b)) (seqRes (exec env [] a) (fun _ => exec env [] b)).2
+          (kind (seqRes (exec env [] a) (fun _ => exec env [] b)).1) := by
+      intro τ hp hhh hii hcc
+      have A := iha cur none [] (BI.switch_ (pc + 15 + la + lb) :: ctx) (pc + 15) C τ env hst.1 rfl (fun _ => rfl)
+        hcur.1 hna hCa' hp hhh hii hcc
+      rw [adj_none] at A
+      simp only [List.map_cons, BI.shape, hla] at A
+      exact simSeq (ra := exec env [] a) (rb := fun _ => exec env [] b) (SimK.mono A hIa hra)
+        (fun τ' hr hc hp' hs => runB τ' hp' hc.halted hc.iters (by
+          rw [hc.cnt cur (by simp [ids, hcur.1, hcur.2])]; exact hcc))
+    -- the dispatch
+    have i0 := codeAt_head hC0
+    have hT0 : CodeAt C (pc + 1) [Instr.dup, Instr.loadVal 0, Instr.strictEq, Instr.jneP 3, Instr.pop,
+        Instr.jump (CS.rel (pc + 15) (pc + 6))] := by
+      intro j hj
+      have := hC0 (1 + j) (by simp at hj ⊢; omega)
+      simp only [List.length_cons, List.length_nil] at hj
+      rw [← Nat.add_assoc] at this
+      rw [this]
+      have hj' : j < 6 := by omega
+      rcases j with _ | _ | _ | _ | _ | _ | j <;> first | rfl | omega
+    have hT1 : CodeAt C (pc + 7) [Instr.dup, Instr.loadVal 1, Instr.strictEq, Instr.jneP 3, Instr.pop,
+        Instr.jump (CS.rel (pc + 15 + la) (pc + 12))] := by
+      intro j hj
+      have := hC0 (7 + j) (by simp at hj ⊢; omega)
+      simp only [List.length_cons, List.length_nil] at hj
+      rw [← Nat.add_assoc] at this
+      rw [this]
+      have hj' : j < 6 := by omega
+      rcases j with _ | _ | _ | _ | _ | _ | j <;> first | rfl | omega
+    have i13 : C[pc + 13]? = some Instr.pop := by
+      have := hC0 13 (by simp); simpa using this
+    have i14 : C[pc + 14]? = some (Instr.jump (CS.rel (pc + 15 + la + lb) (pc + 14))) := by
+      have := hC0 14 (by simp); simpa using this
+    let sel : Nat := if u then env else k
+    let σ1 : VM := { σ with pc := pc + 1, stack := sel :: σ.stack }
+    have hr1 : Reach C σ σ1 := Reach.stepTo hh (by rw [hpc]; exact i0) (by simp [σ1, sel, hpc, hcnt]) (Reach.refl _)
+    have dispatch : ∃ τ, Reach C σ τ ∧ τ = { σ with pc := if sel = 0 then pc + 15 else if sel = 1 then pc + 15 + la else pc + 15 + la + lb } := by
+      have t0 := swTest (σ := σ1) (sel := sel) (st := σ.stack) hT0 rfl hh rfl
+      by_cases h0 : sel = 0
+      · simp only [h0, if_true] at t0 ⊢
+        refine ⟨_, hr1.trans t0, ?_⟩
+        have := jmp_rel (pc + 6) (pc + 15)
+        have e : ((pc + 1 + 5 : Nat) : Int) = ((pc + 6 : Nat) : Int) := by omega
+        rw [e, this]
+      · simp only [h0, if_false] at t0 ⊢
+        let σ2 : VM := { σ1 with pc := pc + 1 + 6 }
+        have t1 := swTest (σ := σ2) (p := pc + 7) (sel := sel) (st := σ.stack) hT1 (by simp [σ2]) hh rfl
+        by_cases h1 : sel = 1
+        · simp only [h1, if_true] at t1 ⊢
+          refine ⟨_, hr1.trans (t0.trans t1), ?_⟩
+          have := jmp_rel (pc + 12) (pc + 15 + la)
+          have e : ((pc + 7 + 5 : Nat) : Int) = ((pc + 12 : Nat) : Int) := by omega
+          rw [e, this]
+        · simp only [h1, if_false] at t1 ⊢
+          let σ3 : VM := { σ2 with pc := pc + 7 + 6 }
+          let σ4 : VM := { σ with pc := pc + 14 }
+          have s3 : Reach C σ3 σ4 := Reach.stepTo hh i13 (by simp [σ3, σ2, σ1, σ4]) (Reach.refl _)
+          have s4 : Reach C σ4 { σ with pc := pc + 15 + la + lb } := by
+            refine Reach.stepTo hh i14 ?_ (Reach.refl _)
+            have := jmp_rel (pc + 14) (pc + 15 + la + lb)
+            simp [σ4]
+            exact this
+          exact ⟨_, hr1.trans (t0.trans (t1.trans (s3.trans s4))), rfl⟩
+    obtain ⟨τd, hrd, hτd⟩ := dispatch
+    have hcd : Common σ τd [] (ids (Stmt.sw u k a b)) (retFree (Stmt.sw u k a b)) := by
+      rw [hτd]; exact ⟨by simp, rfl, hit, hh, fun _ _ => rfl, fun _ => rfl⟩
+    have hsd : τd.stack = σ.stack := by rw [hτd]
+    unfold Sim
+    simp only [exec]
+    obtain ⟨hk, hlg⟩ := kind_swRes sel (fun _ => exec env [] a) (fun _ => exec env [] b)
+    rw [he, hk, hlg]
+    by_cases h0 : sel = 0
+    · simp only [h0, if_true] at hτd ⊢
+      have R := wrapSwitch (runA τd (by rw [hτd]) (by rw [hτd]; exact hh) (by rw [hτd]; exact hit) (by rw [hτd]; exact hcnt))
+      have := SimK.prepend (l1 := []) hrd hcd hsd R
+      simpa using this
+    · by_cases h1 : sel = 1
+      · simp only [h0, h1, if_false, if_true] at hτd ⊢
+        have R := wrapSwitch (runB τd (by rw [hτd]; simp) (by rw [hτd]; exact hh) (by rw [hτd]; exact hit) (by rw [hτd]; exact hcnt))
+        have := SimK.prepend (l1 := []) hrd hcd hsd R
+        simpa using this
+      · simp only [h0, h1, if_false] at hτd ⊢
+        exact ⟨τd, hrd, hcd, by rw [hτd], hsd⟩
   | withS s ih =>
     intro cur lab ls ctx pc C σ env hst hls hlab hcur hnop hC hpc hh hit hcnt
     have hl : lab = none := hlab rfl
